@@ -18,7 +18,7 @@
 (* explicit extent through Runtime::emit ("span_evt", "metric_evt"), a SpanGuard whose       *)
 (* extent is computed from two clock readings (programmatic "span_guard", new_span!          *)
 (* "span_macro"), Emitter::emit on the destination tree ("direct").                          *)
-(* A configuration is [own, extent, ambient, clock, clock2, rtf, csf, em, entry]:  *)
+(* A configuration is [own, extent, ambient, clock, clock2, rtf, csf, em, entry, env]: *)
 (* the event's own properties (a sequence of [k, v], duplicates allowed),  *)
 (* its extent, the ambient properties, the clock (None or a reading), the  *)
 (* runtime's filter, the call-site filter ([op |-> "absent"] when there is *)
@@ -61,10 +61,18 @@ FWrap == {"opt", "ref", "box", "arc", "erased", "assert"}
 \*   none / always: Option::None or `filter::always()`;
 \*   the field wf of wrap / wrapfn: the wrapping given by value ("owned"), borrowed ("ref":
 \*   `Wrapping for &T`) or type-erased ("erased": `&(dyn ErasedWrapping + Send + Sync)`);
-\*   the entry "rt_with": the event put together with with_props / with_mdl / with_extent
+\*   the entry "rt_with": the event put together with with_props / with_mdl / with_extent;
+\*   the entry "rt_map": its properties put together with map_props, the event passed borrowed
+\*   and type-erased (`&evt.erase()`);
+\*   the field env: the form in which the runtime holds its ambient context, clock and rng -
+\*   by value ("plain"), borrowed, boxed, shared, Some(..), type-erased (`Box<dyn ErasedCtxt ..>`,
+\*   `Box<dyn ErasedClock ..>`), AssertInternal(..); and, for "no clock, nothing ambient",
+\*   Option::None ("optnone") and Empty ("empty") in place of components that yield nothing
 LeafOps == {"leaf", "fnleaf"}
 Strippable == {"ref", "box", "arc", "erased", "assert"}
-Pipeline == {"rt", "rt_with", "rt_as_emitter", "core", "macro", "macro_evt", "macro_lvl", "evt_macro",
+EnvForms == {"plain", "ref", "box", "arc", "opt", "erased", "assert"}
+EnvAbsent == {"optnone", "empty"}
+Pipeline == {"rt", "rt_with", "rt_map", "rt_as_emitter", "core", "macro", "macro_evt", "macro_lvl", "evt_macro",
              "span_evt", "metric_evt", "span_guard", "span_macro"}
 \* entries whose event gets its extent from two readings of the runtime's clock (at start
 \* and at completion); the configuration's `extent` is not used by them
@@ -265,11 +273,16 @@ Direct ==
     /\ ext' = cfg.extent
     /\ UNCHANGED <<cfg, amb, log>>
 
+\* a read of the runtime's context / clock as the scripted components record it (None and
+\* Empty in their place have nothing that could record)
+CtxtRead == IF cfg.env \in EnvAbsent THEN <<>> ELSE <<[t |-> "ctxt", id |-> 0]>>
+ClockRead == IF cfg.env \in EnvAbsent THEN <<>> ELSE <<[t |-> "clock", id |-> 0]>>
+
 \* ctxt.with_current(|ctxt| ..)
 SnapshotCtxt ==
     /\ pc = "start" /\ cfg.entry \in Pipeline
     /\ amb' = cfg.ambient
-    /\ log' = Append(log, [t |-> "ctxt", id |-> 0])
+    /\ log' = log \o CtxtRead
     /\ pc' = "extent"
     /\ UNCHANGED <<cfg, ext, work>>
 
@@ -280,11 +293,11 @@ ResolveExtent ==
     /\ pc = "extent"
     /\ IF cfg.entry \in SpanGuards
        THEN /\ ext' = OwnExtent(cfg)
-            /\ log' = log \o <<[t |-> "clock", id |-> 0], [t |-> "clock", id |-> 0]>>
+            /\ log' = log \o ClockRead \o ClockRead
        ELSE IF cfg.extent.kind # "none"
        THEN ext' = cfg.extent /\ log' = log
        ELSE /\ ext' = IF cfg.clock # None THEN Point(cfg.clock) ELSE NoExtent
-            /\ log' = Append(log, [t |-> "clock", id |-> 0])
+            /\ log' = log \o ClockRead
     /\ pc' = "filter"
     /\ UNCHANGED <<cfg, amb, work>>
 
